@@ -1614,6 +1614,8 @@ def validate(prop, rng, n_per_fn, res):
         validate_gridmemo(rng, max(60, n_per_fn), res)
     if prop == "C18" and os.path.exists(TRDRIVER):
         validate_maskrules(rng, max(600, 6 * n_per_fn), res)
+    if prop == "C07" and os.path.exists(TRDRIVER):
+        validate_adapter_info(rng, max(60, n_per_fn), res)
     if prop == "C15" and os.path.exists(TRDRIVER):
         validate_gridcompat(rng, max(60, 2 * n_per_fn), res)
         validate_canonical(rng, max(80, 2 * n_per_fn), res)
@@ -1905,6 +1907,55 @@ def validate_run_loop(rng, n_specs, res):
                 stats["mismatch"] += 1
                 res.diverge("translation/run_loop", {"spec": spec}, want, got)
     res.extra["translation_validation_run_loop"] = stats
+
+
+def validate_adapter_info(rng, n_cases, res):
+    """a live pass-through adapter (`adapters.Scale`) in front of a stub source whose `get_info` answers with a prepared
+    `Info` or raises: `get_info`, `_get_info`, `exchange_info` of the real class against the translated methods; infos are
+    compared by identity (the adapter must hand on the very object it got)"""
+    names = ("Adapter_get_info", "Adapter__get_info", "Adapter_exchange_info")
+    if not all(common.TRANSLATION_STATUS.get(f, {}).get("translated") for f in names):
+        return
+    stats = {"calls": 0, "delivered": 0, "source_raised": 0, "no_request": 0, "mismatch": 0}
+    infos = [fm.Info(time=None, grid=fm.NoGrid(), units=u) for u in ("m", "km", "s", "", "kg")]
+    iid = lambda x: None if x is None else next(k for k, i in enumerate(infos) if i is x)  # noqa
+
+    class Stub:
+        def __init__(self, table):
+            self.table = table
+
+        def get_info(self, info):
+            d = self.table[iid(info)]
+            if d is None:
+                raise fm.errors.FinamMetaDataError("no agreement")
+            return infos[d]
+
+    reqs, expect = [], []
+    for _ in range(n_cases):
+        table = {k: (None if rng.random() < 0.25 else rng.randrange(len(infos))) for k in range(len(infos))}
+        a = fm.adapters.Scale(2.0)
+        a._source = Stub(table)
+        for _step in range(rng.randint(1, 3)):
+            fn = rng.choice(names)
+            req = None if rng.random() < 0.15 else rng.randrange(len(infos))
+            before = [iid(a._input_info), iid(a._output_info)]
+            meth = {"Adapter_get_info": a.get_info, "Adapter__get_info": a._get_info, "Adapter_exchange_info": a.exchange_info}[fn]
+            try:
+                got = meth(None if req is None else infos[req])
+                want = {"ok": [iid(got), [iid(a._input_info), iid(a._output_info)]]}
+                stats["delivered"] += 1
+            except Exception as e:  # noqa
+                want = {"err": err_class(e)}
+                stats["no_request" if req is None else "source_raised"] += 1
+            reqs.append({"fn": fn, "args": before + [req, [[k, v] for k, v in table.items()]]})
+            expect.append((fn, req, table, want))
+            stats["calls"] += 1
+    if reqs:
+        for (fn, req, table, want), got in zip(expect, _trdriver(reqs)):
+            if got != want:
+                stats["mismatch"] += 1
+                res.diverge("translation/" + fn, {"fn": fn, "request": req, "source_table": {str(k): v for k, v in table.items()}}, want, got)
+    res.extra["translation_validation_adapter_info"] = stats
 
 
 def validate_canonical(rng, n_cases, res):
